@@ -502,6 +502,10 @@ func (s *scheduler) pick() string {
 					c.mu.Unlock()
 					if !busy {
 						add(fmt.Sprintf("nt:%d", n), 12)
+						if s.faulty {
+							// the node handles the request, its answer is lost
+							add(fmt.Sprintf("ntlost:%d", n), 1)
+						}
 					}
 					if el.phase == "grace" {
 						add(fmt.Sprintf("ntfail:%d", n), 8)
@@ -519,6 +523,14 @@ func (s *scheduler) pick() string {
 			elActive = true
 			add("bl", 30)
 			add("blfail", 1)
+			if s.faulty {
+				// faults between the steps of the election: the new leader processes BecomeLeader, its answer is
+				// lost; the coordinator dies in the final store of the election
+				add("bllost", 2)
+				if len(el.removed) == 0 {
+					add("blcrash", 2)
+				}
+			}
 		case "bl-inflight":
 			elActive = true
 		case "deleting":
